@@ -15,31 +15,38 @@
    That the objects of finished handlers can be garbage-collected is OBSERVED by the correspondence
    run (weak references to sentinels, gc.collect()), not proved: Python's heap is not modelled. *)
 From Coq Require Import ZArith NArith List Bool.
-From Pygls Require Import Base.Assoc Model.Endpoint Spec.EndpointSpec Proofs.EndpointInv Proofs.EndpointFuts Proofs.C16Proofs.
+From Pygls Require Import Base.Assoc Model.Endpoint Model.EndpointX Spec.EndpointSpec Proofs.EndpointInv Proofs.EndpointFuts
+  Proofs.EndpointXProofs Proofs.C16Proofs.
 From Pygls Require Model.Outgoing Spec.OutgoingSpec Proofs.OutgoingProofs.
 Import ListNotations.
 
+(* Histories are lists of Model/EndpointX.v events: every event of Endpoint.v (`Base e`: frames received -
+   among them `$/cancelRequest` and `shutdown`, which cancels every pending request without popping it -
+   task steps, callbacks, pool items, writes, send_request) plus `ServerCancel i` (any other server-side
+   cancellation of request i: cancel() on its future with no pop) and `OutCancel o` (the caller of
+   send_request gives up on the future).  There is NO hypothesis on the history: no guard, nothing about
+   shutdown, exit, who cancels, writer or hook. `runx c (map Base evs) = run c evs` (runx_base). *)
 Definition C16_incoming_statement : Prop :=
-  forall c evs, let s := run c evs in
+  forall c evs, let s := runx c evs in
     (* every incoming entry belongs to a request future that is still in flight ... *)
     (forall k r, In (k, r) (futs s) -> is_incoming r = true -> In k (inflight_ids s)) /\
     (* ... so the table is bounded by the requests in flight, for histories of any length *)
     length (incoming_entries s) <= inflight s /\
-    (* at quiescence no incoming entry is left, *)
+    (* at quiescence no incoming entry is left - however each request was answered or cancelled, *)
     (quiescent s = true -> incoming_entries s = [] /\ inflight s = 0) /\
     (* the only other bookkeeping is that of send_request calls, *)
-    (incl (keys (rtypes s)) (sent_ids evs) /\ forall k o, In (k, FOut o) (futs s) -> In k (sent_ids evs)) /\
+    (incl (keys (rtypes s)) (sent_idsx evs) /\ forall k o, In (k, FOut o) (futs s) -> In k (sent_idsx evs)) /\
     (* and a history without outgoing requests that ends quiescent leaves both tables empty *)
-    (sent_ids evs = [] -> quiescent s = true -> futs s = [] /\ rtypes s = []).
+    (sent_idsx evs = [] -> quiescent s = true -> futs s = [] /\ rtypes s = []).
 
 Theorem C16_incoming : C16_incoming_statement.
 Proof.
   intros c evs s. subst s. split; [|split; [|split; [|split]]].
-  - intros k r. apply futs_subset_inflight.
-  - apply table_bounded.
-  - apply tables_empty_at_quiescence.
-  - apply outgoing_only_from_sends.
-  - apply incoming_quiescent_empty.
+  - intros k r. apply futs_subset_inflight_st. apply fw_runx.
+  - apply table_bounded_st, fw_runx.
+  - apply tables_empty_st, fw_runx.
+  - apply outgoing_only_from_sends_x.
+  - apply incoming_quiescent_empty_x.
 Qed.
 Print Assumptions C16_incoming.
 
@@ -67,6 +74,26 @@ Definition ex16_evs : list ev :=
    Recv (FReq true (IInt 4) POk (RUser (mkB HSync ORetUnser Propagate)));
    TaskStep 0; TaskStep 1; Recv (FNotif true 1 POk (NCancel (IInt 3)))].
 Definition ex16_rest : list ev := [TaskStep 0; TaskStep 1; JobStart 0; JobFinish 0; LoopCb 0; LoopCb 1].
+
+(* shutdown with a suspended coroutine, a not yet started one and a queued pool job; a server-side
+   cancel; an outgoing request the caller gave up on before the answer came *)
+Definition ex16x : list evx :=
+  [Base (Recv (FReq true (IInt 1) POk (RUser (mkB (HAsync 1) (ORet 1) Propagate)))); Base (TaskStep 0);
+   Base (Recv (FReq true (IInt 2) POk (RUser (mkB (HAsync 0) (ORet 2) Propagate))));
+   Base (Recv (FReq true (IInt 3) POk (RUser (mkB (HThread false) (ORet 3) Propagate))));
+   Base (Recv (FReq true (IInt 4) POk (RUser (mkB (HAsync 2) (ORet 4) Propagate)))); Base (TaskStep 2);
+   ServerCancel (IInt 4); Base (TaskStep 2); Base (LoopCb 2);
+   Base (UserSend (IStr [111%N])); OutCancel 0; Base (Recv (FResp true (IStr [111%N]) false POk));
+   Base (Recv (FReq true (IInt 9) POk (RShutdown None)));
+   Base (TaskStep 0); Base (TaskStep 1); Base (LoopCb 0); Base (LoopCb 1)].
+
+Example C16_nonvacuous_x :
+  quiescent (runx ex16_cfg ex16x) = true /\ futs (runx ex16_cfg ex16x) = [] /\ rtypes (runx ex16_cfg ex16x) = [] /\
+  shutdown (runx ex16_cfg ex16x) = true /\
+  filter (fun f => match f with OResp _ (PError _) => true | _ => false end) (out (runx ex16_cfg ex16x)) =
+    [OResp (IInt 4) (PError code_cancelled); OResp (IInt 3) (PError code_cancelled);
+     OResp (IInt 1) (PError code_cancelled); OResp (IInt 2) (PError code_cancelled)].
+Proof. vm_compute. repeat split. Qed.
 
 Example C16_nonvacuous :
   keys (futs (run ex16_cfg ex16_evs)) = [IInt 1; IInt 2] /\ inflight (run ex16_cfg ex16_evs) = 3 /\
